@@ -2,6 +2,19 @@
 // (1) scale-value 0.18 datatypes, public fields only (scale_value::{Value, ValueDef, Composite, Variant, Primitive, BitSequence});
 //     scale-value's `Variant` is named ValVariant here because the single verified file also holds scale-info's `Variant`.
 pub struct Value<T = ()> { pub value: ValueDef<T>, pub context: T }
+// ASSUMED: the derived PartialEq / Clone of scale-value's Value<()> are structural equality / identity
+impl vstd::std_specs::cmp::PartialEqSpecImpl for Value<()> {
+    open spec fn obeys_eq_spec() -> bool { true }
+    open spec fn eq_spec(&self, other: &Value<()>) -> bool { *self == *other }
+}
+impl PartialEq for Value<()> {
+    #[verifier::external_body]
+    fn eq(&self, other: &Value<()>) -> (r: bool) { unimplemented!() }
+}
+impl Clone for Value<()> {
+    #[verifier::external_body]
+    fn clone(&self) -> (r: Value<()>) ensures r == *self { unimplemented!() }
+}
 pub enum ValueDef<T> { Composite(Composite<T>), Variant(ValVariant<T>), BitSequence(BitSequence), Primitive(Primitive) }
 pub enum Composite<T> { Named(Vec<(String, Value<T>)>), Unnamed(Vec<Value<T>>) }
 pub struct ValVariant<T> { pub name: String, pub values: Composite<T> }
@@ -105,6 +118,8 @@ impl Value {
     pub fn unnamed_composite<I: IntoVals>(vals: I) -> (r: Value)
         ensures r.value is Composite, r.value->Composite_0 is Unnamed, r.value->Composite_0->Unnamed_0@ == vals.vals()
     { unimplemented!() }
+    #[verifier::external_body]
+    pub fn without_context(value: ValueDef<()>) -> (r: Value) ensures r.value == value { unimplemented!() }
     #[verifier::external_body]
     pub fn named_composite(vals: Vec<(String, Value)>) -> (r: Value)
         ensures r.value is Composite, r.value->Composite_0 == Composite::<()>::Named(vals)
